@@ -3,7 +3,7 @@
 WT=/tmp/seedtry/ref-$$; mkdir -p /tmp/seedtry
 git -C /repo worktree add -q "$WT" HEAD || exit 2
 trap 'git -C /repo worktree remove --force "$WT" >/dev/null 2>&1' EXIT
-(cd "$WT" && git apply "$1") || { echo "patch does not apply"; exit 2; }
+(cd "$WT" && (git apply "$1" 2>/dev/null || git apply -3 "$1" 2>/dev/null)) || { echo "patch does not apply"; exit 2; }
 for p in $(echo "$2" | tr ',' ' '); do
   (cd "$(dirname "$0")/.." && VERIF_REPO="$WT" ./check "$p" 2>/dev/null | grep -E "VIOLATION|^\[" | cut -c1-150)
 done
